@@ -75,6 +75,7 @@ type Loc struct {
 }
 
 type MapObj struct {
+	Frozen string
 	KT, VT types.Type
 	Keys   []Value
 	Vals   []*Loc
@@ -236,7 +237,7 @@ func (ex *Exec) load(l *Loc) Value {
 }
 
 func (ex *Exec) store(l *Loc, v Value) {
-	if l.Frozen != "" {
+	if l.Frozen != "" && !(l.Kids == nil && sameValue(l.V, v)) {
 		ex.frozenStore(l)
 	}
 	ex.noteAccess(l, true)
@@ -461,4 +462,23 @@ func (ex *Exec) describe(v Value) string {
 		return fmt.Sprintf("slice[len=%d cap=%d]", x.Len, x.Cap)
 	}
 	return fmt.Sprintf("%T", v)
+}
+
+// sameValue: syntactically identical leaf values (a store of the value already held is not a mutation).
+func sameValue(a, b Value) bool {
+	switch x := a.(type) {
+	case *smt.Term:
+		y, ok := b.(*smt.Term)
+		return ok && x == y
+	case Ptr:
+		y, ok := b.(Ptr)
+		return ok && x.L == y.L
+	case SliceV:
+		y, ok := b.(SliceV)
+		return ok && x == y
+	case MapV:
+		y, ok := b.(MapV)
+		return ok && x.M == y.M
+	}
+	return false
 }
